@@ -115,7 +115,7 @@ def run(ctx):
         "encoding/json round-trips the metadata document (Codec.RoundTrip hypothesis of start_after_kill_ok)",
         "Go memory model: the nsqd RWMutex makes a PersistMetadata call one critical section; topic locks make a "
         "channel-map read atomic (one model Step per critical section / system call)",
-        "translator tools/go2lean kind `seq` (order of tracked calls/assignments in a function body)",
+        "translator tools/go2lean kind `effseq` (order of tracked calls/assignments in a function body)",
         "harness harness/meta/meta_test.go: real nsqd as a subprocess (New, LoadMetadata, PersistMetadata, Main), "
         "SIGKILL at verif points / random instants, white-box idle detection (no goroutine in Notify.func1 or "
         "PersistMetadata), concurrent observer of nsqd.dat",
